@@ -549,7 +549,9 @@ ElemNumber::getCountString(
         if (DoubleSupport::isNaN(theValue) == true ||
             DoubleSupport::isPositiveInfinity(theValue) == true ||
             DoubleSupport::isNegativeInfinity(theValue) == true ||
-            DoubleSupport::lessThan(theValue, 0.5) == true)
+            DoubleSupport::lessThan(theValue, 0.5) == true ||
+            // too large for CountType: converting it would be undefined
+            DoubleSupport::greaterThanOrEqual(theValue, 18446744073709551616.0) == true)
         {
             NumberToDOMString(theValue, theResult);
         }
